@@ -48,6 +48,8 @@ def transfer(src: Rec, dst: Rec, own: tuple[str, ...]):
     dst.distinct |= src.distinct
 
 
+SUITE_PARTS = {"test/lib/test_storage.py": 12, "test/lib/test_metrics.py": 6, "test/utils/test_amaranth_ext.py": 3, "test/lib/test_stack.py": 2,
+               "test/utils/test_utils.py": 2, "test/lib/test_fifo.py": 2, "test/lib/test_allocators.py": 2}  # long files are split (every n-th test)
 SUITE_QUICK = ["test/lib/test_connectors.py", "test/core/test_methods.py"]
 
 
@@ -59,7 +61,11 @@ def suite_shards(tier, seed):
     if not os.path.isdir(os.path.join(root, "test")):
         root = "/repo"
     files = SUITE_QUICK if tier == "quick" else sorted(os.path.relpath(f, root) for f in glob.glob(os.path.join(root, "test", "**", "test_*.py"), recursive=True))
-    return [{"seed": seed, "suite": True, "file": f, "root": root} for f in files]
+    out = []
+    for f in files:
+        n = SUITE_PARTS.get(f, 1) if tier != "quick" else 1
+        out += [{"seed": seed, "suite": True, "file": f, "root": root, "part": f"{i}/{n}"} for i in range(n)]
+    return out
 
 
 def run_suite_shard(spec, rec: Rec, pid: str, own: tuple[str, ...]):
@@ -73,7 +79,7 @@ def run_suite_shard(spec, rec: Rec, pid: str, own: tuple[str, ...]):
     pp = os.pathsep.join(x for x in [os.environ.get("VERIF_REPO", ""), verif] if x)
     try:
         subprocess.run(["/venv/bin/python", "-m", "pytest", "-q", "-p", "no:cacheprovider", "-p", "vf.pytest_txsan", os.path.join(spec["root"], spec["file"])],
-                       cwd=d, env=dict(os.environ, PYTHONPATH=pp, VF_SUITE_OUT=out, VF_SUITE_PROP=pid, VERIF_ANCHORS="0"), capture_output=True, text=True, timeout=2400)
+                       cwd=d, env=dict(os.environ, PYTHONPATH=pp, VF_SUITE_OUT=out, VF_SUITE_PROP=pid, VF_SUITE_PART=spec.get("part", "0/1"), VERIF_ANCHORS="0"), capture_output=True, text=True, timeout=2400)
     except subprocess.TimeoutExpired:
         rec.note(f"repository test file {spec['file']} did not finish under the sanitizer within the time limit (not a verdict)")
     try:
